@@ -33,6 +33,8 @@ PktProblems(s, b) ==
      ELSE IF ~LenOK(b) THEN <<"length-inconsistent">>
      ELSE IF HasAF(h) /\ ~AFOK(b) THEN <<"adaptation-field-inconsistent">>
      ELSE IF s.op = "packet" THEN <<>>                      \* caller-built packet: structure only
+     \* the null PID carries no unit: a null packet has no payload_unit_start, no adaptation field, no meaning (ISO 13818-1 2.4.3.3)
+     ELSE IF h.pid = 8191 /\ (h.pusi = 1 \/ HasAF(h)) THEN <<"unit-on-the-null-pid">>
      ELSE IF isPSI THEN
             (IF h.pusi # 1 THEN <<"psi-without-pusi">>
              ELSE IF ~HasPL(h) THEN <<"psi-without-payload">>
